@@ -698,6 +698,7 @@ def native_owner_witness(which):
     t, y = [1.0, 2.0, 3.0], [1.5, 2.5, 2.0]
     full = real.LogLikelihood(Toy(), real.ConstantAndMultiplicativeGaussianErrorModel(), y, t)
     for seq in ([{'Sigma rel.': 0.3}], [{'a': 1.2}, {'Sigma base': 0.6}], [{'b': 0.4, 'Sigma base': 0.6}, {'b': None}], [{'a': 1.2}, {'a': None}], [{'Sigma rel.': 9.0}, {'Sigma rel.': 0.3}],
+                [{'a': 7.0}, {'a': 1.2}], [{'b': 2.0}, {'Sigma base': 0.6}, {'b': 0.4}], [{'Sigma rel.': 0.3, 'Sigma base': 0.6}], [{'Sigma base': 5.0}, {'Sigma rel.': 0.3, 'Sigma base': 0.6}],
                 [{'Sigma base': 0.6, 'Sigma rel.': 0.3}], [{'Sigma base': 0.6}, {'Sigma rel.': 0.3}, {'a': 1.2}], [{'a': 1.2, 'b': 0.4}]):      # every error parameter fixed (known noise); every mechanistic one
         ll = real.LogLikelihood(Toy(), real.ConstantAndMultiplicativeGaussianErrorModel(), y, t) if which == 'LogLikelihood' else \
             real.PredictiveModel(Toy(), real.ConstantAndMultiplicativeGaussianErrorModel())
@@ -710,6 +711,17 @@ def native_owner_witness(which):
             return {'what': 'after fix_parameters calls %s the %s reports the parameters %s (n=%s), the free ones are %s' % (seq, which, ll.get_parameter_names(), ll.n_parameters(), free),
                     'expected': free, 'observed': ll.get_parameter_names()}
         if which != 'LogLikelihood':
+            # the samples are those of the unfixed model at the substituted vector (same seed, same stream)
+            x = [vals[k] for k, n in enumerate(names) if n not in Af]
+            sub = [Af.get(n, vals[k]) for k, n in enumerate(names)]
+            try:
+                got = np.asarray(ll.sample(x, t, n_samples=4, seed=3, return_df=False), dtype=float)
+                want = np.asarray(real.PredictiveModel(Toy(), real.ConstantAndMultiplicativeGaussianErrorModel()).sample(sub, t, n_samples=4, seed=3, return_df=False), dtype=float)
+            except Exception as ex:
+                return {'what': 'after fix_parameters calls %s sampling raises %r' % (seq, ex), 'expected': 'samples', 'observed': repr(ex)}
+            if got.shape != want.shape or not np.allclose(got, want):
+                return {'what': 'after fix_parameters calls %s the PredictiveModel samples (seed 3) %s; the unfixed model at the substituted vector %s samples %s' % (
+                    seq, np.round(got.ravel()[:4], 5).tolist(), sub, np.round(want.ravel()[:4], 5).tolist()), 'expected': want.tolist(), 'observed': got.tolist()}
             continue
         x = [vals[k] for k, n in enumerate(names) if n not in Af]
         try:
@@ -907,12 +919,14 @@ def native_histories(rec):
             w = native_pop_witness()
         elif which == 'mechanistic':
             w = native_mech_witness({}, {}, ['a', 'b', 'c'])
+        elif which in ('LogLikelihood', 'PredictiveModel'):
+            w = native_owner_witness(which)
         else:
             w = native_error_witness({}, {}, ['e0', 'e1'])
         return None if w is None else w['what']
     rec.native_check('wrappers/native.histories', ['chi._population_models.ReducedPopulationModel.fix_parameters', 'chi._population_models.ReducedPopulationModel.set_n_ids',
                                                    'chi._mechanistic_models.ReducedMechanisticModel.fix_parameters', 'chi._error_models.ReducedErrorModel.fix_parameters'],
-                     ['population', 'mechanistic', 'error'], one, 'fixed call histories on the real wrapper classes; distinct by wrapper', exhaustive=True)
+                     ['population', 'mechanistic', 'error', 'LogLikelihood', 'PredictiveModel'], one, 'fixed call histories on the real wrapper classes; distinct by wrapper', exhaustive=True)
 
 
 def tasks():
